@@ -59,7 +59,7 @@ THEOREMS = {
     "C14": ["fit_binarizer_once", "partialFit_binarizer_once", "binarize_spec", "binarize_noop_ctxBin", "np_binarize_once",
             "addArm_new_binarizer", "tree_binarizer_twice_counterexample",
             "stepOp_binarizer_once", "stepOp_binz", "run_binarizer_once", "run_binarizer_once_state",
-            "chunked_binarizer_once"],
+            "chunked_binarizer_once", "rowsOf_converted", "convRel_run", "thompson_counts_binarized"],
     "C15": ["sim_distance_lookup", "slice_row", "sim_selection_eq_library", "sim_cache_correct", "sim_cache_fresh",
             "shared_cache_counterexample", "radius_exact"],
     "C16": ["split_partition", "random_split_partition", "batches_cover_once", "stats_additive", "min_le_mean_le_max",
